@@ -21,7 +21,7 @@ func init() {
 	mon.Register(&mon.Spec{
 		ID:    "C01",
 		Level: "exploration",
-		Rule: "seeded random API histories (New/NewSMF1/NewSMF2, TimeFormat assignment incl. all four SMPTE rates, NoRunningStatus toggle, Track.Add single and variadic, Track.Close early/late/omitted, Add after Close, adding an end-of-track message, SMF.Add of closed and unclosed tracks) " +
+		Rule: "seeded random API histories (New/NewSMF1/NewSMF2, TimeFormat assignment incl. all four SMPTE rates, NoRunningStatus toggle, Track.Add single and variadic, Track.Close early/late/omitted, Add after Close, adding an end-of-track message, SMF.Add of closed and unclosed tracks, a track variable that is added, extended and added again) " +
 			"with a shadow model as expected content, + a fixed boundary matrix (every VLQ boundary delta incl. 2^28 and 2^32-1 x every message kind x running status on/off x formats x divisions). Each value is written, read back and compared with the shadow. " +
 			"distinct = distinct written byte streams (content hash); non-trivial = at least one event besides end-of-track",
 		Assumptions: []string{
@@ -29,7 +29,7 @@ func init() {
 			"resolution 0 (alias of 960), resolutions above 32767 (clamped) and more than 65535 tracks are outside the stated domain",
 			"messages are non-empty smf.Message values: channel messages, FF type VLQ payload metas in canonical form, F0/F7 sysex and escape messages",
 		},
-		Require: []string{"bank_reads", "dumps_among_notes", "histories", "smpte_files", "rs_elisions_by_writer", "delta_ge_2^28", "early_close", "add_after_close", "variadic_add", "unclosed_tracks", "events_compared", "norunningstatus_files", "file_roundtrips", "read_modify_write_values", "concurrent_roundtrips", "vlq_width_combinations"},
+		Require: []string{"bank_reads", "dumps_among_notes", "histories", "smpte_files", "rs_elisions_by_writer", "delta_ge_2^28", "early_close", "add_after_close", "variadic_add", "unclosed_tracks", "tracks_added_again_after_more_adds", "events_compared", "norunningstatus_files", "file_roundtrips", "read_modify_write_values", "concurrent_roundtrips", "vlq_width_combinations"},
 		Run:     runC01,
 	})
 }
@@ -40,7 +40,7 @@ type apiValue struct {
 	sh   *ref.File
 	desc []string
 	// feature counts
-	early, afterClose, variadic, unclosed, bigDelta int
+	early, afterClose, variadic, unclosed, bigDelta, readded int
 }
 
 func (a *apiValue) log(f string, v ...any) {
@@ -236,6 +236,7 @@ func buildHistory(r *mon.Rand, maxDelta uint32, allowBig bool) *apiValue {
 		if (err == nil) != closed {
 			a.log("!! SMF.Add error does not match closed state %v", closed)
 		}
+		base := append([]ref.Ev(nil), sh...) // the track as it was handed to SMF.Add
 		if !closed {
 			a.unclosed++
 			sh = append(sh, ref.Ev{Delta: 0, Msg: ref.EOT}) // WriteTo closes with delta 0
@@ -247,6 +248,36 @@ func buildHistory(r *mon.Rand, maxDelta uint32, allowBig bool) *apiValue {
 		// appending to the track value after SMF.Add must not change the file
 		if r.P(1, 6) {
 			tr.Add(1, []byte{0x90, 1, 1})
+		} else if r.P(1, 4) && t+1 < nt {
+			// the caller goes on with the same track variable (a take that was added and is then extended) and adds
+			// it again as the next track: SMF.Add takes the track as it is at that moment, both entries are kept
+			sh = base
+			for k, n := 0, r.Range(1, 5); k < n; k++ {
+				prev = randomMsg(r, prev, false)
+				d := delta()
+				tr.Add(d, prev)
+				shAdd(d, prev)
+				a.log("track %d (same variable as track %d): Add(%d, % X)", t+1, t, d, head(prev, 12))
+			}
+			if r.P(1, 2) && !closed {
+				d := delta()
+				tr.Close(d)
+				sh = append(sh, ref.Ev{Delta: d, Msg: ref.EOT})
+				closed = true
+				a.log("track %d: Close(%d)", t+1, d)
+			}
+			err := a.s.Add(tr)
+			a.log("SMF.Add(track %d, the extended variable of track %d) = %v", t+1, t, err)
+			if !closed {
+				a.unclosed++
+				sh = append(sh, ref.Ev{Delta: 0, Msg: ref.EOT})
+			}
+			a.sh.Tracks = append(a.sh.Tracks, sh)
+			if a.sh.Format == 0 {
+				a.sh.Format = 1
+			}
+			a.readded++
+			t++
 		}
 	}
 	return a
@@ -356,6 +387,7 @@ func c01Check(c *mon.Ctx, a *apiValue, label string) {
 	c.Count("add_after_close", int64(a.afterClose))
 	c.Count("variadic_add", int64(a.variadic))
 	c.Count("unclosed_tracks", int64(a.unclosed))
+	c.Count("tracks_added_again_after_more_adds", int64(a.readded))
 	c.Count("delta_ge_2^28", int64(a.bigDelta))
 	if countEvents(a.sh) > len(a.sh.Tracks) {
 		c.DistinctBytes(b)
